@@ -5,6 +5,7 @@
     c01  <cfg> <model states> <items>           → `ok` | `reject`      (verified monitor `C01.checkTrace`)
 -/
 import Model
+import Handlers
 
 open TM TM.Codec
 
@@ -47,7 +48,9 @@ def handle (line : String) : String :=
         | "flat" => run flatCase ns
         | "c01" => run c01Case ns
         | "c05" => run c05Case ns
-        | _ => none
+        | k => match Handlers.all.find? (fun (e : String × (List Nat → Option String)) => e.1 = k) with
+          | some (_, h) => h ns
+          | none => none
       r.getD "bad-input"
 
 partial def loop (h : IO.FS.Stream) (out : IO.FS.Stream) : IO Unit := do
